@@ -1143,7 +1143,11 @@ class Engine:
         """args: PySeq of positional arguments; kwargs: dict."""
         if star_kw is not None:
             kwargs = dict(kwargs)
-            extra = self.ext.expand_kwargs(self, ctx, star_kw)
+            from .externals import Recorder as _Rec
+            if isinstance(f, _Rec) and isinstance(star_kw, S):
+                extra = {'**': star_kw}        # an opaque mapping handed on to a recorded external call: recorded as it is
+            else:
+                extra = self.ext.expand_kwargs(self, ctx, star_kw)
             kwargs.update(extra)
         if isinstance(f, Fn):
             if f.kind == 'builtin':
